@@ -7,3 +7,33 @@ claim("C04", "boundary-value enumeration + mutation/structure-aware fuzzing of e
 claim("C16", "property-based differential check of reported offsets against an independent segmenter",
       "Generated-input search over hand-encoded headers of all sizes mod 8, pool packages and mutations; offsets must equal independently computed boundaries of the written bytes.",
       "Trusted: refimpl::fmt::decode.")
+claim("C06", "property-based round-trip builder -> write -> parse -> accessors over generated configurations",
+      "Generated-input search over valid builder configurations; every supplied value must be returned by its accessor (files: exact OS-string path, mode, owner, flags, caps, link, size, sha256, clamped mtime).",
+      "Trusted: harness-side sha2; generator soundness rules (unique normalised destinations, NUL-free strings).")
+claim("C07", "property-based differential check of payload iteration against supplied contents and an independent cpio writer",
+      "Generated-input search: built packages of all compressors/levels/size classes incl. the hooked large-file format, plus hand-encoded foreign packages with %ghost-omitting, permuted and stripped archives, plus the assets.",
+      "Trusted: refimpl::cpio writer, decoder crates. The > 4 GiB path is reached via the verif-hooks feature only.")
+claim("C08", "property-based recomputation of all recorded digests from written bytes with independent decompression",
+      "Generated-input search biased to files above each compressor's short-write threshold, with sign/clear suffixes.",
+      "Trusted: RustCrypto hashes, flate2/zstd/liblzma/bzip2 decoders called directly.")
+claim("C09", "property-based validation of emitted packages by an independent strict validator (rpm's hdrblobVerify rules) and cpio parser",
+      "Generated-input search over builder configurations and sign/clear histories on built and rpmbuild-made packages; the validator is self-tested on the assets first.",
+      "Trusted: refimpl::strict / refimpl::cpio as a faithful restriction of rpm's loader rules to the clauses of the statement.")
+claim("C11", "property-based metamorphic check: repeated builds in-process and in fresh processes must be byte-identical; timestamps clamped",
+      "Generated-input search over configurations with many non-root owners; 3 in-process + 3 child-process builds (different TZ, cwd, hash seeds) per case.",
+      "Schedules are varied only through hash seeds/TZ/cwd; signature times parsed with the pgp crate.")
+claim("C13", "bounded-exhaustive differential testing against a transliteration of rpmvercmp + order-axiom checks + random long strings",
+      "Complete enumeration of all pairs up to length 3 (quick) / 4 (thorough) over a 12-symbol alphabet, all triples up to length 2, sorted-run criterion; exhaustive for that sub-domain, sampled beyond.",
+      "Trusted: refimpl::vercmp as a faithful transliteration of rpm's C code.")
+claim("C15", "bounded-exhaustive and random round-trip testing of Display/parse",
+      "Complete enumeration of component tuples over a 6-symbol alphabet to length 3, random tuples from the documented character sets, asset NEVRAs, all compression types, arbitrary text for no-panic.",
+      "Domain restricted to component values a real package can carry (see evidence assumptions).")
+claim("C18", "complete enumeration of the input domain against an independent bit-level oracle",
+      "All 65 536 words; i32: windows + stride sweep (quick), all 2^32 values (thorough) - exhaustive, so this is a decision for the enumerated domain.",
+      "None beyond rustc.")
+claim("C19", "bounded-exhaustive differential testing against a reference acceptor for the stated grammar + random grammar-based strings with injected faults",
+      "Complete enumeration of all strings up to 5 (quick) / 6 (thorough) tokens over a 14-token alphabet.",
+      "Reference acceptor is three-valued; Unspecified zones are listed in the evidence assumptions.")
+claim("C20", "boundary-window enumeration and random sampling against an i128 oracle",
+      "Every second in windows around 0, 2^31, 2^32 with sub-second offsets through SystemTime and chrono (UTC and fixed offsets), extremes, random instants, builder mtimes.",
+      "Expected value computed from construction parameters.")
